@@ -358,11 +358,11 @@ class Ctx:
 
     # -- correspondence ----------------------------------------------------------------------
     def correspond(self, harness, area, args=(), env=None, tag=None, nontrivial=None, timeout=3000,
-                   seed=None, tier=None, race=False, driver_args=(), oracle_filter=None):
+                   seed=None, tier=None, race=False, driver_args=(), oracle_filter=None, diff_filter=None):
         """Build + run the harness, pipe its log into the driver. Returns stream dict."""
         tag = tag or harness
         st = {"harness": harness, "area": area, "tag": tag, "build_ok": False, "ran": False,
-              "oracle_filter": oracle_filter}
+              "oracle_filter": oracle_filter, "diff_filter": diff_filter}
         self.streams.append(st)
         binp, out = build_harness(harness, race=race)
         if binp is None:
@@ -453,6 +453,11 @@ class Ctx:
                         continue
                     oracle_msgs.append((st, m))
                 else:
+                    # a stream borrowed from another area for one kind of line only answers for model/impl
+                    # differences on those lines (the rest belongs to that area's own properties)
+                    if st.get("diff_filter") and not re.search(st["diff_filter"], m):
+                        st.setdefault("foreign_diffs", []).append(m[:300])
+                        continue
                     diff_msgs.append((st, m))
             if st.get("bad", 0):
                 broken.append("unparseable lines in %s" % st["tag"])
